@@ -44,6 +44,12 @@ def auto_schedules(quick):
     for lost in ([2], [2, 3], [1], [4], [3, 5], [2, 4, 6]):
         for times in ([50], [100, 200, 500], [400, 800, 1300, 2000], [20, 40, 60, 80, 100, 120]) if not quick else ([100, 200, 500], [400, 1300], [20, 40, 60, 80]):
             sch.append([{"op": "Auto", "drop": lost, "dup": [], "closes": [[0, t] for t in times]}])
+    # sessions whose message counters start just below the top of the range the first counter is drawn from (2^28): new
+    # messages keep counting up across it
+    for c0 in (0x0ffffffd, 0x0ffffffe, 0x0fffffff, 0x0ffffff0):
+        sch.append([{"op": "Config", "ctr0": c0}, {"op": "Auto", "drop": [], "dup": []}])
+        sch.append([{"op": "Config", "ctr0": c0}, {"op": "Auto", "drop": [2], "dup": [3]}])
+        sch.append([{"op": "Config", "ctr0": c0}, {"op": "Auto", "drop": [1, 4], "dup": []}])
     return sch
 
 def handshake_stage(ck, quick):
@@ -112,6 +118,11 @@ def run(tier, seed, pid="C09", extra=()):
     tcfg = "MrpTrace.cfg" if pid == "C09" else "MrpTraceC15.cfg"
     states, n_runs, rej = vlib.validate_runs(pid, "MrpTrace.tla", tcfg, tpath)
     for r in rej:
+        bi = r["run"][0].get("run", 0)
+        if not isinstance(bi, int):          # the identifier sweep ("ids") is not a behaviour of the list
+            ck.violation("%s|%s|%s" % (pid, r["event"].get("ev"), r["event"].get("kind", bi)), "identifier sweep: event %s (no. %d) is not allowed by Layer P" % (json.dumps(r["event"])[:300], r["at"]),
+                         {"first_rejected": {"index": r["at"], "event": r["event"]}, "run": r["run"][:40]})
+            continue
         ck.violation(signature(r).replace("C09", pid), "real MRP: event %s (no. %d of its run) is not allowed by Layer P" % (json.dumps(r["event"]), r["at"]),
                      {"behaviour": beh[r["run"][0].get("run", 0)] if r["run"][0].get("run", 0) < len(beh) else None,
                       "first_rejected": {"index": r["at"], "event": r["event"]}, "run": r["run"][:120]})
